@@ -99,6 +99,8 @@ type proxyCfg struct {
 	IdPAdvertisedPKCE     []string      // code_challenge_methods_supported of the discovery document (nil = S256 and plain)
 	RedisRealTime         bool          // miniredis TTLs run down in real time (they are otherwise frozen): locks and entries really expire
 	RedisReadTimeout      time.Duration // read_timeout of the Redis client (0 = the client's default of 3 s)
+	RequestLoggingFormat  string        // --request-logging-format ("" = default)
+	AuthLoggingFormat     string        // --auth-logging-format ("" = default)
 	AllowQuerySemicolons  bool          // --allow-query-semicolons (takes effect in the proxy's own server only)
 	SignatureKey          string        // --signature-key "algo:secret": requests to upstreams are signed (GAP-Signature)
 	BindAddress           string        // the proxy's own HTTP listener ("" = none: the suites call the handler)
@@ -211,7 +213,7 @@ func newEnv(c *suiteCtx, cfg proxyCfg) (*testEnv, error) {
 	o.SkipJwtBearerTokens = cfg.SkipJwtBearer
 	o.ForceHTTPS = cfg.ForceHTTPS
 	if cfg.ForceHTTPS {
-		o.Server.SecureBindAddress = "127.0.0.1:8443"
+		o.Server.SecureBindAddress = fmt.Sprintf("127.0.0.1:%d", freePort()) // (NewOAuthProxy really listens: one port per environment)
 		if cfg.SecureBindAddress != "" {
 			o.Server.SecureBindAddress = cfg.SecureBindAddress
 		}
@@ -225,6 +227,12 @@ func newEnv(c *suiteCtx, cfg proxyCfg) (*testEnv, error) {
 		}
 	}
 	o.Server.BindAddress = cfg.BindAddress
+	if cfg.RequestLoggingFormat != "" {
+		o.Logging.RequestFormat = cfg.RequestLoggingFormat
+	}
+	if cfg.AuthLoggingFormat != "" {
+		o.Logging.AuthFormat = cfg.AuthLoggingFormat
+	}
 	o.AllowQuerySemicolons = cfg.AllowQuerySemicolons
 	o.SignatureKey = cfg.SignatureKey
 	o.RawRedirectURL = cfg.RedirectURL
@@ -569,8 +577,8 @@ func (e *testEnv) varyDeployment(o *options.Options) {
 			o.Cookie.Name = "__Secure-sess.id"
 		}
 	}
-	o.Logging.RequestEnabled = pick(3) != 1
-	o.Logging.AuthEnabled = pick(3) != 1
+	o.Logging.RequestEnabled = pick(3) != 1 || e.cfg.RequestLoggingFormat != ""
+	o.Logging.AuthEnabled = pick(3) != 1 || e.cfg.AuthLoggingFormat != ""
 	o.Logging.SilencePing = pick(2) == 1
 	e.c.count("deploy:prefix:" + o.ProxyPrefix)
 	e.c.count("deploy:cookie-name:" + o.Cookie.Name)
